@@ -778,7 +778,15 @@ def run(prop, tier, seed, timeout_s, args, t_start):
     extra = {"tables": [], "bounded": [], "lemmas": []}
     for fn in getattr(mod, "TABLES", []):
         try:
-            for name, ok, detail in fn():
+            for row in fn():
+                name, ok, detail = row[:3]
+                if len(row) > 3 and row[3] == "coverage" and not ok:
+                    # a coverage row: code the property speaks about that no contract reaches (a new entry point, a call
+                    # site moved into a new helper).  Unverified is not violated: undecided (exit 2), never exit 1.
+                    extra["tables"].append({"name": name, "ok": False, "detail": detail, "coverage": True})
+                    report["undecided"].append({"contract": "table", "cfg": "-", "msg": f"not under contract: {name} ({detail})",
+                                                "pc_status": "-"})
+                    continue
                 extra["tables"].append({"name": name, "ok": bool(ok), "detail": detail})
                 rec = {"contract": "table", "cfg": "-", "name": name, "kind": "table", "backend": "eval", "ms": 0,
                        "where": "exhaustive evaluation", "result": "proved" if ok else "refuted"}
